@@ -106,7 +106,41 @@ func init() {
 		panic(engineAbort{abortEnd, "End"})
 	})
 	reg(nd+"Yield", func(fr *frame, args []value) value {
-		fr.m.yield("Yield")
+		// voluntary: any enabled thread (including this one) may run next;
+		// not counted against the preemption bound
+		m := fr.m
+		en := m.enabled()
+		if len(en) > 1 {
+			m.switchTo(m.pick(en, "sched-yield"))
+		}
+		return nil
+	})
+	// strict (non-short-circuit) boolean connectives: build terms, no forks
+	reg(nd+"Or", func(fr *frame, args []value) value { return fr.m.ts.BOr(args[0].(*Term), args[1].(*Term)) })
+	reg(nd+"And", func(fr *frame, args []value) value { return fr.m.ts.BAnd(args[0].(*Term), args[1].(*Term)) })
+	reg(nd+"Implies", func(fr *frame, args []value) value {
+		return fr.m.ts.BOr(fr.m.ts.BNot(args[0].(*Term)), args[1].(*Term))
+	})
+	reg(nd+"IteU64", func(fr *frame, args []value) value {
+		return fr.m.ts.Ite(args[0].(*Term), args[1].(*Term), args[2].(*Term))
+	})
+	reg(nd+"IteInt", func(fr *frame, args []value) value {
+		return fr.m.ts.Ite(args[0].(*Term), args[1].(*Term), args[2].(*Term))
+	})
+	reg(nd+"Thorough",func(fr *frame, args []value) value { return fr.m.ts.Bool(fr.m.cfg.Thorough) })
+	reg(nd+"RunOthers", func(fr *frame, args []value) value {
+		// let every other thread run until all are blocked or done (their
+		// relative order is still a scheduling decision)
+		m := fr.m
+		cur := m.cur
+		m.block(func() bool {
+			for _, t := range m.threads {
+				if t != cur && !t.done && !t.daemo && (t.cond == nil || t.cond()) {
+					return false
+				}
+			}
+			return true
+		}, "RunOthers")
 		return nil
 	})
 	reg(nd+"PermuteRange", func(fr *frame, args []value) value {
